@@ -9,6 +9,7 @@ import (
 	"encoding/json"
 	"fmt"
 	"sort"
+	"strings"
 	"sync"
 	"testing"
 
@@ -21,7 +22,7 @@ const c04cCheck = "c04-concurrent"
 
 type c04cChange struct {
 	AtHit int    `json:"at_hit"` // the change is made when the hook fires for the n-th time during the operation (0-based)
-	Op    string `json:"op"`     // join | leave | disconnect
+	Op    string `json:"op"`     // join | leave | disconnect | broadcast2 (a second broadcast, to all three rooms, made inside the first; then the only change)
 	Sock  string `json:"sock"`
 	Room  string `json:"room"`
 	Async bool   `json:"async"` // made by another goroutine (the delivering goroutine waits for it) instead of the delivering goroutine itself
@@ -74,11 +75,17 @@ func evalC04c(c c04cCase) (f *Failure, nontrivial bool) {
 	var mu sync.Mutex
 	hits := 0
 	applied := 0
+	nested := false
+	second := false
 	hook := func(site string) {
 		if site != "inMemoryAdapter.apply:unlocked" {
 			return
 		}
 		mu.Lock()
+		if nested {
+			mu.Unlock()
+			return
+		}
 		n := hits
 		hits++
 		mu.Unlock()
@@ -101,6 +108,16 @@ func evalC04c(c c04cCase) (f *Failure, nontrivial bool) {
 					so.Disconnect(false)
 					rooms[ch.Sock] = map[string]bool{}
 					alive[ch.Sock] = false
+				case "broadcast2":
+					mu.Lock()
+					nested, second = true, true
+					mu.Unlock()
+					o2 := adapter.NewBroadcastOptions()
+					o2.Rooms = roomSet(c04Rooms)
+					st.adapter.Broadcast(&parser.PacketHeader{Type: parser.PacketTypeEvent, Namespace: "/"}, append(make([]any, 0, 4), "ev", "second"), o2)
+					mu.Lock()
+					nested = false
+					mu.Unlock()
 				}
 			}
 			if ch.Async {
@@ -139,8 +156,34 @@ func evalC04c(c c04cCase) (f *Failure, nontrivial bool) {
 	count := map[string]int{}
 	switch c.Op {
 	case "broadcast":
+		count2 := map[string]int{}
 		for sid, frames := range st.take() {
-			count[string(sid)] = len(frames)
+			for _, f := range frames {
+				if strings.Contains(f, `"second"`) {
+					count2[string(sid)]++
+				} else {
+					count[string(sid)]++
+				}
+			}
+		}
+		if second {
+			// the second broadcast, made while the first was under way: to all three rooms, nobody excepted, memberships unchanged
+			for _, s := range c04cSocks {
+				want := 0
+				for _, r := range c04Rooms {
+					if states[0][s][r] {
+						want = 1
+					}
+				}
+				if count2[s] != want {
+					clause := "member-throughout-receives"
+					if count2[s] > want {
+						clause = "at-most-once"
+					}
+					return fail(clause, fmt.Sprintf("a second broadcast to %v, made inside a broadcast to %v except %v at the point where the adapter releases its lock: socket %s (rooms %v) was served %d times by the second one, want %d",
+						c04Rooms, c.T, c.E, s, keys(states[0][s]), count2[s], want)), true
+				}
+			}
 		}
 	case "fetch":
 		for _, s := range fetched {
@@ -201,6 +244,9 @@ func genC04cCase(t *rapid.T) c04cCase {
 			Sock: rapid.SampledFrom(c04cSocks).Draw(t, "sock"), Room: rapid.SampledFrom(c04Rooms).Draw(t, "room"), Async: rapid.Bool().Draw(t, "async")})
 	}
 	sort.SliceStable(c.Changes, func(i, k int) bool { return c.Changes[i].AtHit < c.Changes[k].AtHit })
+	if c.Op == "broadcast" && rapid.IntRange(0, 3).Draw(t, "second") == 0 {
+		c.Changes = []c04cChange{{AtHit: rapid.IntRange(0, 2).Draw(t, "at2"), Op: "broadcast2", Async: rapid.Bool().Draw(t, "async2")}}
+	}
 	return c
 }
 
